@@ -193,7 +193,7 @@ def validate_batch(c, scripts, obs, batch, label, b0):
     return accepted, rejected, early
 
 
-def validate(c, scripts, obs, label):
+def validate(c, scripts, obs, label, mode="c10"):
     """TLC validates the lifetimes in batches (a few TLC processes side by side); rejected lifetimes are reported."""
     from concurrent.futures import ThreadPoolExecutor
     B = 300
@@ -215,7 +215,7 @@ def validate(c, scripts, obs, label):
                         % (at, json.dumps(ev, sort_keys=True), cfgstr(scripts[i]),
                            json.dumps(dict(failStart=scripts[i]["failStart"], failShut=scripts[i]["failShut"], exts=scripts[i]["exts"],
                                            deps=scripts[i]["deps"], shared=scripts[i]["shared"]))),
-                        replay_obj=dict(script=scripts[i], trace=tl, at=at))
+                        replay_obj=dict(script=scripts[i], trace=tl, at=at, mode=mode))
         # (2) the narrow, separately reported clause: inner object of a shared receiver started too early
         for i, at in early:
             nearly += 1
@@ -225,7 +225,7 @@ def validate(c, scripts, obs, label):
             c.violation("a receiver shared between signals (sharedcomponent) started its inner object at event %d %s while a consumer of "
                         "another of its signals had not been started; configuration %s shared %s"
                         % (at, json.dumps(tl[at], sort_keys=True), cfgstr(scripts[i]), scripts[i]["shared"]),
-                        replay_obj=dict(script=scripts[i], trace=tl, at=at), signature=SIG_SHARED)
+                        replay_obj=dict(script=scripts[i], trace=tl, at=at, mode=mode), signature=SIG_SHARED)
     if nearly:
         c.extra["shared_receiver_started_early_lifetimes"] = c.extra.get("shared_receiver_started_early_lifetimes", 0) + nearly
     return nrej
@@ -253,7 +253,7 @@ def run_scripts(c, binp, scripts, label, mode="c10"):
             continue
         ok_s.append(s)
         ok_o.append(o)
-    rej = validate(c, ok_s, ok_o, label)
+    rej = validate(c, ok_s, ok_o, label, mode)
     c.log("%s: %d lifetimes recorded, %d rejected" % (label, len(ok_s), rej))
     return ok_s, ok_o
 
@@ -275,7 +275,7 @@ def run(c):
         rp = json.load(open(c.replay))["replay"]
         c.tlc_must_pass("Lifecycle", "LifecycleMC", timeout=600, label="design", files=PGFILES,
                         cfg_text=cfg_text("LSpec", "Pipes2", ["r1"], ["p1"], ["e1"], ["ca1"], 3, ["x1"], 1, INVS, PROPS))
-        run_scripts(c, binp, [rp["script"]], "replay")
+        run_scripts(c, binp, [rp["script"]], "replay", mode=rp.get("mode", "c10"))
         c.sample(dict(kind="replayed script", script=to_go(rp["script"])))
         return
 
